@@ -12,6 +12,29 @@ LEVEL_NOTE = ("Trusted: Lean 4.33.0 kernel (leanchecker re-check in the thorough
               "tree on every run by running model and implementation on the same generated operation sequences and diffing. ")
 
 CLAIMED = {
+    "C03": dict(
+        text=("Machine-checked Lean 4 theorems about an executable model of defcon's representation caches (BaseObject."
+              "getRepresentation / destroyRepresentation / self-observation eviction, the sub-key, Contour.move's in-place "
+              "patch, the contour -> glyph -> component -> glyph notification routes with base-glyph observation "
+              "switching): an invariant 'every cached value equals the factory applied to the object's current view, "
+              "to any component nesting depth' preserved by every request, cache-API call, registration and every "
+              "Contour / Component / Glyph / Groups mutator incl. move, base re-assignment, insert / remove / re-insert "
+              "(cache_coherent_partial: the three operations that add / delete / rename a glyph are not yet covered by "
+              "the induction); cascade completeness by induction on nesting depth (nested_base_eviction); at most one "
+              "factory run per (name, kwargs) between changes; sub-key injectivity; the patch geometry over Z; and a "
+              "coverage obligation discharged by `decide` over tables REGENERATED from the source on every run "
+              "(representationFactories incl. string-instead-of-tuple specs, notifications posted per method, "
+              "addObserver routes). Tied to the code by differential runs of model and real defcon (cached keys of "
+              "every object and factory-invocation counts after every op) and a direct fresh-factory oracle."),
+        design="DESIGN.md section 5 (C03)",
+        note="Modelled not verified: contents are opaque version stamps (which cell a call rewrites, no-op guards and the "
+             "structural effect of compound glyph mutators are supplied by the adaptor); that the built-in factories are "
+             "functions of the model's views is checked only by the oracle; the AST extractor is syntactic. Domain: "
+             "acyclic components, one layer, no user holds, Point objects edited through contour mutators only, "
+             "newGlyph / rename onto absent names (F16). The model is of the tree with repo_fixes/C03-*.diff applied.",
+        technique="Lean 4 proof (invariant induction over operation sequences, induction on nesting depth, decide over "
+                  "regenerated tables) + model/implementation correspondence + direct oracle",
+    ),
     "C04": dict(
         text=("Machine-checked Lean 4 theorems about an executable model of NotificationCenter (registry, counted holds with "
               "coalescing queues, counted disables, dead observers, re-entrant one-shot callback scripts): invariants for every "
